@@ -284,8 +284,13 @@ pub fn window(tier: Tier, lo: usize, hi_quick: usize, hi_thorough: usize) -> Box
     // powers of two and their neighbours, also beyond the quick tier's range (up to the thorough bound): a defect that only
     // concerns long windows (a narrow integer type, a buffer sized for "typical" lengths, a threshold on N) must not need the thorough tier
     let specials: Vec<usize> = [16usize, 31, 32, 33, 64, 65, 100, 127, 128, 129, 200, 255, 256, 257].iter().copied().filter(|v| *v >= lo && *v <= hi_thorough.max(hi).min((4 * hi).max(64))).collect();
+    // ... and a uniform draw between the tier's range and that cap, so that a defect confined to a band of window lengths
+    // (say 41..63) between the special values is reachable too
+    let cap = hi_thorough.max(hi).min((4 * hi).max(64));
     if specials.is_empty() {
         prop_oneof![5 => lo..=small_hi, 3 => lo..=hi].boxed()
+    } else if cap > hi {
+        prop_oneof![15 => lo..=small_hi, 1 => proptest::sample::select(specials), 9 => lo..=hi, 1 => hi + 1..=cap].boxed()
     } else {
         prop_oneof![15 => lo..=small_hi, 1 => proptest::sample::select(specials), 9 => lo..=hi].boxed()
     }
